@@ -329,7 +329,7 @@ func c03GateArgs(p *Prog, ib *inbound, r *Report) {
 					}
 				}
 			}
-			msgOK = strings.Contains(got["FeatureRemote"], "FeatureByAddress()") && strings.HasSuffix(got["RequestHeader"], ".Header") && strings.HasSuffix(got["Cmd"], ".Payload.Cmd[]") && strings.HasPrefix(got["DeviceRemote"], "param:")
+			msgOK = strings.Contains(got["FeatureRemote"], "FeatureByAddress()") && strings.HasSuffix(got["RequestHeader"], ".Header") && strings.HasSuffix(got["Cmd"], ".Payload.Cmd[0]") && strings.HasPrefix(got["DeviceRemote"], "param:")
 			r.Check("R3a", base+"|message", msgOK, p.InstrPos(handler), fmt.Sprintf("message: FeatureRemote=%s RequestHeader=%s Cmd=%s DeviceRemote=%s", got["FeatureRemote"], got["RequestHeader"], got["Cmd"], got["DeviceRemote"]))
 			return
 		}
